@@ -71,6 +71,7 @@ func c07Reader() {
 	}
 	var data []byte
 	var tss []uint64
+	var forged []bool
 	var prev uint64
 	for i := 0; i < n; i++ {
 		var f *ref.Frame
@@ -86,6 +87,14 @@ func c07Reader() {
 		ts := genTS(prev)
 		prev = ts
 		signValid(f, d, key, genByte(), ts)
+		isForged := dsim.Choose(6) == 5
+		if isForged {
+			// an attacker's frame (wrong signature) with an arbitrary timestamp: refused, and the
+			// window must not move
+			f.Signature[dsim.Choose(6)] ^= byte(1 + dsim.Choose(255))
+			count("fault:forged-frame-in-history")
+		}
+		forged = append(forged, isForged)
 		tss = append(tss, ts)
 		data = append(data, f.Encode()...)
 	}
@@ -101,7 +110,10 @@ func c07Reader() {
 			dsim.Failf("replay-window", "history %v: only %d results for %d frames", tss, len(res), n)
 			return
 		}
-		want := model.Accept(ts)
+		want := false
+		if !forged[i] {
+			want = model.Accept(ts)
+		}
 		got := res[i].kind == 0
 		if got {
 			verdicts = append(verdicts, "accept")
@@ -109,8 +121,8 @@ func c07Reader() {
 			verdicts = append(verdicts, "refuse")
 		}
 		if got != want {
-			dsim.Failf("replay-window", "timestamp history %v: frame %d (ts=%d, newest accepted before it=%d): reader %s, model says accept=%v (%v)",
-				tss[:i+1], i, ts, model.Newest, verdicts[i], want, res[i].err)
+			dsim.Failf("replay-window", "timestamp history %v (forged: %v): frame %d (ts=%d, newest accepted before it=%d): reader %s, model says accept=%v (%v)",
+				tss[:i+1], forged[:i+1], i, ts, model.Newest, verdicts[i], want, res[i].err)
 			return
 		}
 	}
